@@ -8,12 +8,15 @@ Proof. unfold gen_run, gen_start, gen_shutdown. apply run_eq. Qed.
 Definition gen_log (n : gen) : list ev := fst (gen_run n).
 
 (* events: whatever the provider does *)
-Lemma reload_loop_events pf : forall rest cur ls,
+Lemma leave_loop_eq t pf cur : leave_loop t pf cur = collector_shutdown pf cur.
+Proof. destruct t; reflexivity. Qed.
+
+Lemma reload_loop_events t pf : forall rest cur ls,
   gen_start cur = (ls, []) ->
-  exists k, k <= length rest /\ map fst (reload_loop pf cur ls rest) = map gen_log (cur :: firstn k rest).
+  exists k, k <= length rest /\ map fst (reload_loop t pf cur ls rest) = map gen_log (cur :: firstn k rest).
 Proof.
   induction rest as [|nxt rest IH]; intros cur ls Hs; simpl.
-  - exists 0. split; [lia|]. unfold gen_log, collector_shutdown. rewrite gen_run_eq, Hs. simpl.
+  - exists 0. split; [lia|]. rewrite leave_loop_eq. unfold gen_log, collector_shutdown. rewrite gen_run_eq, Hs. simpl.
     destruct (gen_shutdown cur). reflexivity.
   - assert (Ecur : gen_log cur = ls ++ fst (gen_shutdown cur)).
     { unfold gen_log. rewrite gen_run_eq, Hs. reflexivity. }
@@ -31,23 +34,23 @@ Qed.
 (* Run over any sequence of configurations, with any provider behaviour: the services that get
    built are a prefix of the sequence, and each of them sees exactly the event sequence of ONE
    life time [collector_run] *)
-Lemma l_reload_generations_events pf gens :
-  exists k, k <= length gens /\ map fst (collector_run_reload pf gens) = map gen_log (firstn k gens).
+Lemma l_reload_generations_events t pf gens :
+  exists k, k <= length gens /\ map fst (collector_run_reload t pf gens) = map gen_log (firstn k gens).
 Proof.
   destruct gens as [|g0 rest]; simpl.
   - exists 0. split; [lia|reflexivity].
   - destruct (gen_start g0) as [ls es] eqn:Es. destruct es as [|e es].
-    + destruct (reload_loop_events pf rest g0 ls Es) as (k & Hk & E). exists (S k). split; [lia|]. exact E.
+    + destruct (reload_loop_events t pf rest g0 ls Es) as (k & Hk & E). exists (S k). split; [lia|]. exact E.
     + exists 1. split; [lia|]. simpl. unfold gen_log. rewrite gen_run_eq, Es. simpl. destruct (gen_shutdown g0). reflexivity.
 Qed.
 
 (* with a well-behaved provider also the reported errors are those of the life times *)
-Lemma reload_loop_spec : forall rest cur ls,
+Lemma reload_loop_spec t : forall rest cur ls,
   gen_start cur = (ls, []) -> gn_close_fails cur = false -> Forall (fun n => gn_close_fails n = false) rest ->
-  exists k, k <= length rest /\ reload_loop false cur ls rest = map gen_run (cur :: firstn k rest).
+  exists k, k <= length rest /\ reload_loop t false cur ls rest = map gen_run (cur :: firstn k rest).
 Proof.
   induction rest as [|nxt rest IH]; intros cur ls Hs Hc Hr; simpl.
-  - exists 0. split; [lia|]. unfold collector_shutdown, provider_errs. rewrite gen_run_eq, Hs, Hc. simpl.
+  - exists 0. split; [lia|]. rewrite leave_loop_eq. unfold collector_shutdown, provider_errs. rewrite gen_run_eq, Hs, Hc. simpl.
     destruct (gen_shutdown cur). reflexivity.
   - assert (Ecur : gen_run cur = (ls ++ fst (gen_shutdown cur), snd (gen_shutdown cur))).
     { rewrite gen_run_eq, Hs. reflexivity. }
@@ -61,20 +64,41 @@ Proof.
     + exists 0. split; [lia|]. simpl. rewrite Ecur. reflexivity.
 Qed.
 
-Lemma l_reload_generations gens : Forall (fun n => gn_close_fails n = false) gens ->
-  exists k, k <= length gens /\ collector_run_reload false gens = map gen_run (firstn k gens).
+Lemma l_reload_generations t gens : Forall (fun n => gn_close_fails n = false) gens ->
+  exists k, k <= length gens /\ collector_run_reload t false gens = map gen_run (firstn k gens).
 Proof.
   intros Hf. destruct gens as [|g0 rest]; simpl.
   - exists 0. split; [lia|reflexivity].
   - inversion Hf as [|? ? H0 Hr]; subst. destruct (gen_start g0) as [ls es] eqn:Es. destruct es as [|e es].
-    + destruct (reload_loop_spec rest g0 ls Es H0 Hr) as (k & Hk & E). exists (S k). split; [lia|]. exact E.
+    + destruct (reload_loop_spec t rest g0 ls Es H0 Hr) as (k & Hk & E). exists (S k). split; [lia|]. exact E.
     + exists 1. split; [lia|]. simpl. rewrite gen_run_eq, Es. simpl. destruct (gen_shutdown g0). reflexivity.
 Qed.
 
 (* at least the first configuration's service is always built and torn down, whatever the provider does *)
-Lemma l_reload_first pf g0 rest : exists tl, map fst (collector_run_reload pf (g0 :: rest)) = gen_log g0 :: tl.
+Lemma l_reload_first t pf g0 rest : exists tl, map fst (collector_run_reload t pf (g0 :: rest)) = gen_log g0 :: tl.
 Proof.
   simpl. destruct (gen_start g0) as [ls es] eqn:Es. destruct es as [|e es].
-  - destruct (reload_loop_events pf rest g0 ls Es) as (k & _ & E). rewrite E. simpl. eexists. reflexivity.
+  - destruct (reload_loop_events t pf rest g0 ls Es) as (k & _ & E). rewrite E. simpl. eexists. reflexivity.
   - unfold gen_log. rewrite gen_run_eq, Es. destruct (gen_shutdown g0). simpl. eexists. reflexivity.
 Qed.
+
+(* which trigger makes Run leave its loop never changes anything: the running service is shut down
+   (completely, once) in every case *)
+Lemma reload_loop_trigger t t' pf : forall rest cur ls, reload_loop t pf cur ls rest = reload_loop t' pf cur ls rest.
+Proof.
+  induction rest as [|nxt rest IH]; intros cur ls; simpl.
+  - rewrite !leave_loop_eq. reflexivity.
+  - destruct (gen_shutdown cur) as [ld [|e ed]]; [|reflexivity]. destruct (gn_close_fails cur); [reflexivity|].
+    destruct (gen_start nxt) as [ls2 [|e2 es2]]; [|reflexivity]. rewrite IH. reflexivity.
+Qed.
+
+Lemma l_every_trigger_shuts_down t t' pf gens : collector_run_reload t pf gens = collector_run_reload t' pf gens.
+Proof.
+  destruct gens as [|g0 rest]; simpl; [reflexivity|]. destruct (gen_start g0) as [ls [|e es]]; [|reflexivity].
+  apply reload_loop_trigger.
+Qed.
+
+(* the service that is running when Run leaves its loop receives its complete shutdown sequence *)
+Lemma l_last_generation_shut_down t pf cur ls : gen_start cur = (ls, []) ->
+  map fst (reload_loop t pf cur ls []) = [ls ++ fst (gen_shutdown cur)].
+Proof. intros _. simpl. rewrite leave_loop_eq. unfold collector_shutdown. destruct (gen_shutdown cur). reflexivity. Qed.
